@@ -1236,3 +1236,138 @@ def c15(R, ctx):
             R.violation("correspondence:C15", "model and implementation differ on `%s`: impl=%r model=%r" % (fe_reqs[k][:200], fimpl[k][:120], fmodel[k][:120]),
                         {"request": fe_reqs[k], "implementation": fimpl[k], "model": fmodel[k], "theorem": "correspondence Model/Frontends.v"}, found_input=False)
             break
+
+
+# ----------------------------------------------------------------------------- C08
+
+
+def tiling_check(ctx, inp, events, outcome):
+    """warn mode: walks events and warnings; returns None or (signature-suffix, text)"""
+    pos = 0
+    msg_start = 0
+    after = {}          # path -> offset just behind that field
+    expect = None       # (offset, why) where the next field must start after a reported overrun / shortfall
+    last_warn = None
+    surplus = None
+    for e in events:
+        f = e.split(" ")
+        if f[0] == "E":
+            if f[3] == "...":
+                if f[1] == "/":
+                    msg_start = pos if expect is None else expect[0]
+                continue
+            w = prim_width(ctx, f[2])
+            if w is None:
+                return ("unknown-type", "event of unknown primitive type %s" % f[2])
+            if expect is not None:
+                if expect[0] < pos:
+                    pass
+                pos = expect[0]
+                expect_why = expect[1]
+                expect = None
+            else:
+                expect_why = None
+            p = ctx["pinned"]["prims"][f[2]]
+            chunk = inp[pos:pos + w]
+            try:
+                enc = int(f[3]).to_bytes(w, "big", signed=p["signed"])
+            except OverflowError:
+                enc = None
+            if len(chunk) < w or chunk != enc:
+                where = ("after-" + expect_why) if expect_why else ("after-warning-" + last_warn if last_warn else "plain")
+                return ("field-bytes:" + where, "field %s=%s does not hold the input bytes at offset %d (%s)" % (f[1], f[3], pos, where))
+            pos += w
+            after[f[1]] = pos
+        elif f[0] == "W":
+            kind = f[1]
+            last_warn = kind
+            if kind in ("X", "U"):
+                cpath, cmax = f[2], f[3]
+                if cpath == "-" or cmax == "-":
+                    return ("warning-without-region", e)
+                start = msg_start if cpath in ("/.commandSize", "/.responseSize") else after.get(cpath)
+                if start is None:
+                    return ("warning-region-unknown", "warning names size field %s which was not shown" % cpath)
+                end = start + int(cmax)
+                if end >= pos:
+                    expect = (end, kind)
+                # else: the declared end lies behind the bytes already shown (size smaller than the header
+                # itself): there is nothing to resume at, decoding continues in place
+            elif kind == "S":
+                surplus = b"" if f[2] == "-" else bytes.fromhex(f[2])
+            elif kind == "D":
+                pass
+    if expect is not None:
+        pos = max(pos, min(expect[0], len(inp)))
+    if outcome == "ACC":
+        depleted = any(e.startswith("W D") for e in events)
+        if surplus is not None:
+            if inp[pos:] != surplus:
+                return ("surplus", "bytes listed as surplus %s differ from the bytes not shown %s" % (surplus.hex(), inp[pos:].hex()))
+        elif not depleted and pos != len(inp):
+            return ("bytes-unaccounted", "%d input bytes are neither shown, skipped as a reported region tail, nor listed as surplus" % (len(inp) - pos))
+    return None
+
+
+@runner("C08")
+def c08(R, ctx):
+    C = Cases(R.rng, ctx["tier"])
+    base = C.wellformed(per_type=1, per_cc=1, corpus_n=50)
+    cases = []
+    vcases = []
+    for b in R.rng.sample(base, min(len(base), 420)):
+        sf = C.size_faults(b, per=2)
+        cases += sf
+        vf = C.value_faults(b, per=2)
+        vcases += vf
+        # double faults
+        if sf and vf and R.rng.random() < 0.3:
+            x = sf[0]
+            y = C.size_faults((x[0], x[1], x[2], b[3]), per=1)
+            cases += y[:1]
+    cases += C.arbitrary(n=250)
+    allc = cases + vcases
+    res, _ = engine(R, ctx, allc, modes=("0",))
+    reqs, impl, model = res["0"]
+    lenient = common.run_model(["lenient pin %s %s" % (c[1], h(c[2])) for c in vcases]) if ctx["driver_ok"] else None
+    flagged = set()
+    nvalue = 0
+    for k, c in enumerate(allc):
+        ie, io = split_result(no_pulled(impl[k]))
+        sig = None
+        if io.startswith("CRASH"):
+            sig = ("crash:" + io[6:], "warn-mode decoding of %s aborted with an internal error: %s" % (c[1], io))
+        elif io.startswith("RAISE"):
+            f = io.split(" ")
+            if not (f[1] == "V" and f[5] in ("cc", "sel")):
+                sig = ("raise:" + f[1], "warn-mode decoding of %s raised %s (only an unknown command code or an unselecting selector may raise)" % (c[1], io[:160]))
+        elif io in ("DEP", "SUP") or io.startswith("DEP ") or io.startswith("SUP "):
+            sig = ("raise:" + io[:3], "warn mode raised instead of warning: " + io)
+        if sig is None and (c[1].startswith("T:") or c[1] in ("C",) or c[1].startswith("R:")) and not io.startswith("RAISE"):
+            t = tiling_check(ctx, c[2], ie, io)
+            if t:
+                sig = ("tiling:" + t[0], "%s: %s" % (c[1], t[1]))
+        if sig is None and k >= len(cases) and lenient is not None:
+            # value faults only: lenient interpretation with one warning directly after each offending event
+            le = lenient[k - len(cases)]
+            warns = [e for e in ie if e.startswith("W ")]
+            if le != "NOTWF" and io == "ACC" and warns and all(w.startswith("W V") for w in warns):
+                nvalue += 1
+                lev, _ = split_result(no_pulled(le))
+                if [e for e in ie if not e.startswith("W ")] != lev:
+                    sig = ("values-only:events", "%s: with value warnings only, the events differ from the lenient field-by-field interpretation" % c[1])
+                else:
+                    for j, e in enumerate(ie):
+                        if e.startswith("W V"):
+                            f = e.split(" ")
+                            pe = ie[j - 1].split(" ") if j > 0 else [""]
+                            if pe[0] != "E" or pe[1] != f[2] or pe[3] != f[4]:
+                                sig = ("values-only:placement", "%s: warning %r does not directly follow its offending event" % (c[1], e))
+                                break
+        if sig:
+            flagged.add(k)
+            R.violation("c08:" + sig[0], sig[1], replay_of(c, "0", impl[k]))
+    R.coverage["value_only_cases_checked"] = nvalue
+    bad = correspondence(R, ctx, reqs, impl, model, what="warn mode: events, warnings with all attributes, pull counts, outcome")
+    report_disagreements(R, ctx, reqs, impl, model, bad, flagged)
+    distribution(R, allc, impl)
